@@ -136,6 +136,25 @@ def check(env, rep, tier):
             for h_, cs_ in lcs.items():
                 if h_ is not None and esc in cs_:
                     inq.add((lb["id"], h_))
+        # "any target text without '>'": the target handed out is the scanned text between '<' and '>' as it stands - on
+        # its way from the cursor into the item it only passes slicing and the removal of the closing '>' (no trimming of
+        # blanks, no normalisation, no helper of the parser's own)
+        import provenance
+        TARGET_OK = ("core::str::<impl str>::trim_end_matches", "core::str::traits::<impl core::ops::index::Index<I> for str>::index",
+                     "core::str::iter::Chars::<'a>::as_str", "core::str::<impl str>::chars", "core::str::<impl str>::split_at",
+                     "core::str::<impl str>::strip_suffix", "core::str::<impl str>::strip_prefix", "core::str::<impl str>::split_once",
+                     "core::str::<impl str>::get", "core::str::<impl str>::as_ptr", "core::str::<impl str>::len")
+        tuples = [st_ for bb_ in bodies[P]["blocks"] if not bb_.get("cleanup") for st_ in bb_["stmts"]
+                  if st_["k"] == "assign" and st_["rv"]["k"] == "aggregate" and st_["rv"]["kind"].get("k") == "tuple" and len(st_["rv"]["ops"]) == 2]
+        foreign = []
+        for st_ in tuples:
+            steps_, term_ = provenance.trace(bodies[P], st_["rv"]["ops"][0])
+            foreign += [x[1] for x in steps_ if x[0] == "call" and x[1] not in TARGET_OK]
+            if term_ and term_[0] == "unknown":
+                foreign.append("untraceable: %s" % (term_[1],))
+        rep.ob("C16.3", "link-scanner|target-as-scanned", bool(tuples) and not foreign,
+               "the link target passes through %s between the scan and the item: text of the target (e.g. blanks at its ends) can be altered" % sorted(set(foreign))[:3]
+               if tuples else "cannot establish: the (target, attributes) item of the link parser was not found", site(bodies[P]))
         for nm, tag in ((P, "link-scanner"), (A, "attr-scanner")):
             linkfmt.check_scanner(prog, rep, bodies[nm], inq, tag, site(bodies[nm]))
             # outside a quoted string no character is consumed unseen: the result of every Chars::next is looked at
